@@ -11,5 +11,9 @@ OpsMenu  == { <<>>,
               << <<"a", "add1">>, <<"b", "scale2">>, <<"a", "cap1">> >>,
               << <<"a", "add1">>, <<"b", "scale2">>, <<"c", "cap1">> >>,
               << <<"c", "cap1">>, <<"b", "scale2">>, <<"a", "add1">> >>,
-              << <<"b", "scale2">>, <<"a", "add1">>, <<"b", "add1">> >> }
+              << <<"b", "scale2">>, <<"a", "add1">>, <<"b", "add1">> >>,
+              \* the same clause (the harness registers the SAME callable object) under two names
+              << <<"a", "add1">>, <<"b", "add1">> >>,
+              << <<"a", "scale2">>, <<"b", "add1">>, <<"c", "scale2">> >>,
+              << <<"a", "cap1">>, <<"b", "scale2">>, <<"c", "cap1">> >> }
 =============================================================================
